@@ -5,6 +5,8 @@
 From Coq Require Import String List Bool.
 From Amgcl Require Import Ptree PtreeProofs ParamsGen.
 Import ListNotations.
+Local Open Scope string_scope.
+Local Open Scope list_scope.
 
 (* ---- C14-A2: the regenerated finite domain -------------------------------------------
    every params struct of the tree: import list and export list agree in names and kinds,
@@ -136,9 +138,8 @@ Theorem C14_A2_A1_instantiations_of_the_tree_are_well_formed bind dflt ety fuel 
   (forall p, match ety p with TEnum names => mem (dflt p) names = true | TPlain => True end) ->
   wf_desc (resolve regular_structs bind dflt ety fuel path id).
 Proof.
-  intros Hety. apply resolve_wf; [|exact Hety].
-  intros s Hs. unfold regular_structs in Hs. apply filter_In in Hs. destruct Hs as [Hin Hl].
-  apply (C14_A2_unlisted_structs_regular s Hin). destruct (listed gen_exceptions gen_known s); [discriminate | reflexivity].
+  intros Hety. unfold regular_structs. apply resolve_wf; [|exact Hety].
+  exact (filter_unlisted_regular gen_exceptions gen_known all_structs C14_A2_unlisted_structs_regular).
 Qed.
 Print Assumptions C14_A2_A1_instantiations_of_the_tree_are_well_formed.
 
